@@ -1523,3 +1523,11 @@ V("r9-c17-stop-bound-early-break", "C17", "fire", UT, _C17_LOOP, _C17_STOP.repla
 V("r9-c17-break-after-second", "C17", "fire", UT, "            folds[i].append(fold_sample)\n", "            folds[i].append(fold_sample)\n            if i >= 1:\n                break\n", rule="FLOW.break",
   what="fold loop left after the second fold")
 V("r9-c17-stop-bound-other-len", "C17", "fire", UT, _C17_LOOP, _C17_STOP.replace("stop = n if", "stop = len(data[0]) if"), rule=None, what="the last fold ends at the length of the first environment")
+
+# ---- principal sub-matrix through a helper: the two index parameters are bound to one variable of the caller
+V("r4-c16-isclique-matrix-block", "C16", "silent", UT, "    subgraph = A[S, :][:, S]\n    subgraph = skeleton(subgraph)", "    subgraph = matrix_block(A, S, S)\n    subgraph = skeleton(subgraph)",
+  what="is_clique takes the block with the helper matrix_block(A, S, S)")
+V("r4-c16-isclique-matrix-block-kw", "C16", "silent", UT, "    subgraph = A[S, :][:, S]\n    subgraph = skeleton(subgraph)", "    subgraph = matrix_block(A, cols=S, rows=S)\n    subgraph = skeleton(subgraph)",
+  what="the same by keyword")
+V("r4-c16-isclique-matrix-block-other-order", "C16", "fire", UT, "    subgraph = A[S, :][:, S]\n    subgraph = skeleton(subgraph)", "    T = S[::-1]\n    subgraph = matrix_block(A, S, T)\n    subgraph = skeleton(subgraph)",
+  rule=None, what="rows and columns in different orders: A + A.T no longer pairs (i, j) with (j, i)")
